@@ -70,6 +70,12 @@ def judge_acl(case) -> Verdict:
     flat0 = list(A.flat_items(acl.items))
     if len(flat0) != len(acl_case["items"]):
         raise Invalid()
+    if case.get("spans") and not acl_case.get("group_by") and flat0:
+        # explicit AceGroup items among plain entries (not created by group_by)
+        from checks.c10 import _wrap_groups
+
+        _wrap_groups(acl, case["spans"])
+        v.label("explicit-acegroups")
     before = acl.line
     detail = {"from": source, "to": target, "before": before, "kwargs": {k: acl_case.get(k) for k in ("port_nr", "protocol_nr", "group_by")}}
     spelled = case.get("alias") or target
@@ -166,7 +172,11 @@ def acl_case_st(draw, tier):
             wide = 0x03FFFE00 | (draw(st.integers(0, 255)) << 1)  # >= 17 non-contiguous bits, bit 0 not wild
             draw(st.sampled_from(aces))["rec"]["src"] = {"k": "wild", "b": 0x08000001, "w": wide & ~1}
     to = "nxos" if acl["platform"] == "ios" else "ios"
-    return {"acl": acl, "to": to, "alias": draw(G.alias_st(to))}
+    case = {"acl": acl, "to": to, "alias": draw(G.alias_st(to))}
+    if not acl["group_by"] and acl["items"] and draw(st.sampled_from([True, False, False])):
+        n = len(acl["items"])
+        case["spans"] = [[draw(st.integers(0, n)), draw(st.integers(1, 3))] for _ in range(draw(st.integers(1, 2)))]
+    return case
 
 
 # --------------------------------------------------------------------------------------- single objects
